@@ -93,6 +93,9 @@ def tracegen_jobs(tier):
                     J.seed_job(cfg(P, 20, 80, ext=ext, buf=buf))
                     J.bytes_job(cfg(P, 20, 80, ext=ext, buf=buf))
                 J.seed_job(cfg(P, 20, 80, ext=ext, buf=buf, muts=MUTS, rate=0.5, unsafe=True))
+                # the same flags reached through a builder history (other values first, then these)
+                J.seed_job(cfg(P, 20, 80, ext=ext, buf=buf, alt_builder=True))
+                J.seed_job(cfg(P, 20, 80, ext=ext, buf=buf, muts=MUTS, rate=0.5, alt_builder=True))
         # F unsafe configurations (lexical properties only)
         for ms in ([["typeconfusion"], ["memoindex"], list(MUTS), ["stringlen", "typeconfusion", "memoindex"]]
                    + ([] if q else [rng.sample(MUTS, rng.randint(1, 7)) for _ in range(20)])):
@@ -100,8 +103,13 @@ def tracegen_jobs(tier):
                 for _ in range(2 if q else 4):
                     J.seed_job(cfg(P, 10, 80, muts=ms, rate=rate, unsafe=True))
                     J.bytes_job(cfg(P, 10, 80, muts=ms, rate=rate, unsafe=True))
-        # mismatched flags: generator unsafe but mutators created safe, and vice versa is not a CLI state
+        # mismatched flags (reachable through the library API, not through the CLI): generator unsafe with
+        # mutators created safe, and a safe generator with mutators created unsafe
         J.seed_job(cfg(P, 10, 60, muts=MUTS, rate=1.0, unsafe=True, mut_unsafe=False))
+        for ms in (["memoindex"], ["memoindex", "offbyone"], ["typeconfusion", "memoindex", "boundary"], list(MUTS)):
+            for rate in (0.0, 1.0):
+                J.seed_job(cfg(P, 30, 90, muts=ms, rate=rate, unsafe=False, mut_unsafe=True))
+                J.bytes_job(cfg(P, 30, 90, muts=ms, rate=rate, unsafe=False, mut_unsafe=True))
         # G long programs: memo beyond 255 entries, index mutators at rate 1
         longs = [(2000, 4000)] if q else [(2000, 4000), (2000, 4000), (6000, 9000)]
         for (mn, mx) in longs:
@@ -109,6 +117,19 @@ def tracegen_jobs(tier):
             if not q:
                 J.bytes_job(cfg(P, mn, mx, muts=["memoindex", "offbyone"], rate=1.0), blen=60000)
                 J.seed_job(cfg(P, mn, mx))
+        # S sharing amplification: (DUP TUPLE2)^n builds a DAG of 2n cells with 2^n paths; anything that walks
+        # the simulated objects by value instead of by cell (hashing a dict key / set member, comparing, copying,
+        # dropping) would need exponential time.  Forced opcode choices, the real generator does the rest.
+        if P >= 2:
+            n = 48
+            amp = [0x32, 0x86] * n
+            shapes = [[0x7d, 0x29] + amp + [0x4e, 0x73],                 # dict key via SETITEM
+                      [0x28, 0x29] + amp + [0x4e, 0x64],                 # dict key via DICT
+                      [0x29] + [0x32, 0x32, 0x87] * 30 + [0x94 if P >= 4 else 0x71, 0x32, 0x86]]   # TUPLE3 tripling, memoised, copied
+            if P >= 4:
+                shapes += [[0x8f, 0x28, 0x29] + amp + [0x90], [0x28, 0x29] + amp + [0x91]]      # set member, frozenset member
+            for sh in shapes:
+                J.seed_job(cfg(P, len(sh) + 3, len(sh) + 3), force=[[i, b] for i, b in enumerate(sh)])
         # H histories: the recorded generation is the (warm+1)-th call on ONE generator; every per-pickle
         # property must hold for it exactly as for the first (state left behind by earlier calls)
         for warm in ((1, 2, 5) if q else (1, 2, 3, 5, 9)):
